@@ -9,6 +9,7 @@
 #define atoi vc_atoi
 #include "compat/libc/stdlib/atol.c"
 #include "igris/util/printf_impl.c"
+#include "c06_pform.h"
 
 #define G_NSLOTS 3
 #define G_OPS_OF(E)                                                                                   \
